@@ -441,31 +441,7 @@ func (x *Exec) dynamicCall(st *State, fr *Frame, site ssa.Instruction, cc *ssa.C
 	sig := cc.Value.Type().Underlying().(*types.Signature)
 	x.fault(st, fr, site, "nil", not(isNilTm(fnv)))
 	if c != nil && c.PureParams[name] {
-		// result is an uninterpreted function of the closure and the arguments
-		rs := sig.Results()
-		var res []*Val
-		for i := 0; i < rs.Len(); i++ {
-			ls := st.m.leaves(rs.At(i).Type())
-			ts := make([]Tm, len(ls))
-			for j, l := range ls {
-				var argSorts, argTerms []string
-				for _, t := range fnv.flatten() {
-					argSorts = append(argSorts, string(t.Sort))
-					argTerms = append(argTerms, t.S)
-				}
-				for _, a := range args {
-					for _, t := range a.flatten() {
-						argSorts = append(argSorts, string(t.Sort))
-						argTerms = append(argTerms, t.S)
-					}
-				}
-				uf := fmt.Sprintf("pure_%s_%s_%d_%d_%s", sanitize(shortFn(fr.fn)), sanitize(name), i, j, st.m)
-				x.declUF(uf, fmt.Sprintf("(declare-fun %s (%s) %s)", uf, strings.Join(argSorts, " "), l.sort))
-				ts[j] = tm(l.sort, "(%s %s)", uf, strings.Join(argTerms, " "))
-			}
-			res = append(res, st.m.build(rs.At(i).Type(), ts))
-		}
-		kn(st, res)
+		kn(st, x.pureParamApp(st, fr.fn, name, fnv, args, sig))
 		return
 	}
 	// contract for calls through a func value: "dyn:<function key>:<name>" or "functype:<type>"
@@ -944,4 +920,33 @@ func (x *Exec) keysUnder(m Mode, prefix string, root types.Type, path []string, 
 		out = append(out, heapKey{prefix + "|" + pre + l.path, s})
 	}
 	return out
+}
+
+// pureParamApp: a call of a func-typed parameter declared 'pure' is an
+// uninterpreted function of the closure value and the arguments.
+func (x *Exec) pureParamApp(st *State, fn *ssa.Function, name string, fnv *Val, args []*Val, sig *types.Signature) []*Val {
+	rs := sig.Results()
+	var res []*Val
+	for i := 0; i < rs.Len(); i++ {
+		ls := st.m.leaves(rs.At(i).Type())
+		ts := make([]Tm, len(ls))
+		for j, l := range ls {
+			var argSorts, argTerms []string
+			for _, t := range fnv.flatten() {
+				argSorts = append(argSorts, string(t.Sort))
+				argTerms = append(argTerms, t.S)
+			}
+			for _, a := range args {
+				for _, t := range a.flatten() {
+					argSorts = append(argSorts, string(t.Sort))
+					argTerms = append(argTerms, t.S)
+				}
+			}
+			uf := fmt.Sprintf("pure_%s_%s_%d_%d_%s", sanitize(shortFn(fn)), sanitize(name), i, j, st.m)
+			x.declUF(uf, fmt.Sprintf("(declare-fun %s (%s) %s)", uf, strings.Join(argSorts, " "), l.sort))
+			ts[j] = tm(l.sort, "(%s %s)", uf, strings.Join(argTerms, " "))
+		}
+		res = append(res, st.m.build(rs.At(i).Type(), ts))
+	}
+	return res
 }
